@@ -16,7 +16,7 @@ D = {
  'C04-w3-2': ("SelfAttributeFilter decides syntactically (first parameter name of the directly enclosing method): `self.x = ...` inside a function nested in a method is no longer an instance attribute",
               "an attribute assigned through `self` in a closure inside a method", "C04", "new PF carrier `self_attr_closure` (completeness clause; also C02)"),
  'C05-w3-1': ("lru_cache on get_parso_cache_node: after rename -> apply -> rename back on the same path the old tree is analysed",
-              "a history on one path: rename, apply, analyse again", "C05", ""),
+              "a history on one path: rename, apply, analyse again", "C05", "third step added to C05's rename histories: after rename and rename-back on the same paths the same request (text read from disk) must give the same result; also reported by C08 (same mechanism as C08-2)"),
  'C05-w3-2': ("rename guard `module_path is None` placed in front of the namespace-package branch: renaming an implicit namespace package announces no directory rename",
               "a rename of a directory without __init__.py", "C05", "new PF carrier `namespace_pkg` (mover)"),
  'C06-w3-1': ("'test' added to EXPRESSION_PARTS: a range covering `a if c else b` of a chained conditional is cut out as if it were an expression",
